@@ -868,6 +868,9 @@ type vf35Forge struct {
 	ticketSuite uint16
 	key         [32]byte
 	rseed       uint64
+	// sibling: the application forges a SECOND state from the same secret buffer (another ticket of the same session)
+	// and afterwards re-keys that second state with SetMasterSecret; the first must still carry the supplied secret
+	sibling bool
 }
 
 type vf35Outcome struct {
@@ -881,6 +884,7 @@ type vf35Outcome struct {
 	echoErr          error
 	setErr           error
 	wireTicketEquals bool
+	siblingClobbered string
 }
 
 func vf35RunForged(f vf35Forge) (o vf35Outcome, pan *vfPanic) {
@@ -917,6 +921,21 @@ func vf35RunForged(f vf35Forge) (o vf35Outcome, pan *vfPanic) {
 	if f.version == VersionTLS13 {
 		css.SetUseBy(uint64(vfNow().Add(time.Hour).Unix()))
 		css.SetAgeAdd(uint32(f.rseed))
+	}
+	if f.sibling {
+		want := append([]byte(nil), f.secret...)
+		other := MakeClientSessionState(append([]byte("sibling-"), ticket...), f.version, f.suite, f.secret, []*x509.Certificate{leaf}, [][]*x509.Certificate{{leaf, ca}})
+		rekey := make([]byte, len(f.secret))
+		vfNewDetRand(f.rseed, "sibling-rekey").Read(rekey)
+		other.SetMasterSecret(rekey)
+		if got := css.MasterSecret(); !bytes.Equal(got, want) {
+			o.siblingClobbered = fmt.Sprintf("after SetMasterSecret on a second state forged from the same buffer, the first state's MasterSecret() is %x, it was forged with %x", got, want)
+			return
+		}
+		if !bytes.Equal(other.MasterSecret(), rekey) {
+			o.siblingClobbered = fmt.Sprintf("SetMasterSecret(%x) left MasterSecret() = %x", rekey, other.MasterSecret())
+			return
+		}
 	}
 	ccfg := vfClientConfig(vf35Host)
 	ccfg.Rand = vfNewDetRand(f.rseed, "cli")
@@ -994,6 +1013,12 @@ func vf35JudgeForged(st *vfStats, t vfFataler, f vf35Forge) {
 	}
 	if o.setErr != nil {
 		st.Violation(t, "forged session (%s): could not install the session: %v", id, o.setErr)
+	}
+	if o.siblingClobbered != "" {
+		st.Violation(t, "forged session (%s): %s", id, o.siblingClobbered)
+	}
+	if f.sibling {
+		st.Class("forged:second-state-from-the-same-buffer-rekeyed")
 	}
 	resumedC, resumedS := o.cerr == nil && o.ccs.DidResume, o.serr == nil && o.scs.DidResume
 	consistent := o.offeredSuite && o.offeredTicket && o.wireTicketEquals && (f.version == VersionTLS13 || o.offeredEMS == f.ems)
@@ -1106,6 +1131,7 @@ func vf35GenForge(rt *rapid.T) vf35Forge {
 		f.secret = vf35GenBytes(rt, "psk", 32, 32)
 		f.keyType = rapid.SampledFrom([]string{"ecdsa", "rsa", "ed25519"}).Draw(rt, "keyType")
 		f.client = vf35Client{"HelloGolang", HelloGolang, "cache"}
+		f.sibling = rapid.IntRange(0, 2).Draw(rt, "sibling_state_rekeyed") == 0
 		return f
 	}
 	var cands []vf35Suite
@@ -1136,6 +1162,7 @@ func vf35GenForge(rt *rapid.T) vf35Forge {
 			f.ticketSuite = rapid.SampledFrom(others).Draw(rt, "ticket_suite")
 		}
 	}
+	f.sibling = rapid.IntRange(0, 2).Draw(rt, "sibling_state_rekeyed") == 0
 	return f
 }
 
@@ -1147,6 +1174,8 @@ func TestVerifC35ForgedResume(t *testing.T) {
 	ms := bytes.Repeat([]byte{0x42}, 48)
 	for _, f := range []vf35Forge{
 		{version: VersionTLS12, suite: TLS_ECDHE_ECDSA_WITH_AES_128_GCM_SHA256, keyType: "ecdsa", secret: ms, ems: true, client: vf35Clients12[0], key: key, rseed: 1},
+		{version: VersionTLS12, suite: TLS_ECDHE_ECDSA_WITH_AES_128_GCM_SHA256, keyType: "ecdsa", secret: append([]byte(nil), ms...), ems: true, client: vf35Clients12[0], key: key, rseed: 11, sibling: true},
+		{version: VersionTLS13, suite: TLS_AES_128_GCM_SHA256, keyType: "ecdsa", secret: append([]byte(nil), ms[:32]...), client: vf35Clients12[0], key: key, rseed: 12, sibling: true},
 		{version: VersionTLS12, suite: TLS_ECDHE_RSA_WITH_AES_256_GCM_SHA384, keyType: "rsa", sha384: true, secret: ms, ems: true, client: vf35Clients12[1], key: key, rseed: 2, refSeal: true},
 		{version: VersionTLS12, suite: TLS_ECDHE_ECDSA_WITH_AES_128_GCM_SHA256, keyType: "ecdsa", secret: ms, ems: true, client: vf35Clients12[2], key: key, rseed: 3},
 		{version: VersionTLS12, suite: TLS_ECDHE_ECDSA_WITH_AES_128_GCM_SHA256, keyType: "ecdsa", secret: ms, ems: false, client: vf35Clients12[0], key: key, rseed: 4},
